@@ -9,7 +9,7 @@ import (
 func init() { register("C13", propC13) }
 
 func propC13(c *Ctx) {
-	c.Explanation = "That every request is answered while fewer than ten are pending depends on goroutine scheduling, and byte equality of payloads at run time is behavioural; both are NOT decided. Decided are the structural conditions: (I1) the IPv4 echo queue has capacity exactly 10 and one replier goroutine per endpoint; the enqueue is a non-blocking select (the NIC goroutine never blocks on it) and the drop branch releases the cloned route; what is queued is a clone of the inbound route and a COPY (ToView) of the whole datagram body after exactly the 4 fixed ICMP bytes - identifier, sequence number and all payload chunks, not just the first view, and not an alias of the receive buffer; this happens only for type == echo with at least 6 bytes in the first view. (I2) the replier answers each dequeued request exactly once with code 0 and releases the route. (I3) sendPing4: type = echo reply, the first bytes of the body (identifier) go to header bytes 4.., the rest is the payload, checksum = complement of the sum over the header (checksum field still zero in the freshly prepended buffer) continued over the payload, one WritePacket on the given route with protocol ICMPv4. (I4) ICMPv6: the 8-byte echo header is copied from the request, the type is then set to echo reply, the payload is the request's body after those 8 bytes, checksum over source/destination of the inbound route, length, next-header 58, payload and the header with the checksum field zeroed; sent on the inbound route. The inbound route is built with local = the packet's destination (the pinged address) and remote = its source, and Clone keeps both, so the reply goes to the requester from the pinged address. (I5) echo-reply type values are written nowhere else in the module, sendPing4 is called only by the replier and the queue is fed only by handleICMP: no reply without a request. That requests for foreign addresses never reach handleICMP is C09. (I6) the IPv4 reassembly key covers id, protocol and every byte of both addresses (shared with C08/F4): a fragmented request is reassembled from its own requester's fragments only. (I7) the masked address match behind 'is this address served here' (shared with C09/D5). (I8) the IPv4 inbound path (shared with C08/F4). (I5) also holds the exact guards of the ping socket's echo-request-only gate; (I9) ICMP type/code/checksum accessors at the RFC 792/4443 bits (shared with C15/B1). (I10) protocol 1 of a valid IPv4 datagram is handed to handleICMP with the payload view. (I11) the echo payload ends where the IP length says (shared with C16/V2); (I12) fragmented echo requests are stored through container/heap and reassembled in offset order (shared with C08/F2). (I13) the Internet checksum used by both reply builders drops no carry when folding to 16 bits (shared with C15/B4, C06/E0). NOT decided: scheduling (answered while < 10 pending), at-most-once under link-level duplication, fragmentation of large replies."
+	c.Explanation = "That every request is answered while fewer than ten are pending depends on goroutine scheduling, and byte equality of payloads at run time is behavioural; both are NOT decided. Decided are the structural conditions: (I1) the IPv4 echo queue has capacity exactly 10 and one replier goroutine per endpoint; the enqueue is a non-blocking select (the NIC goroutine never blocks on it) and the drop branch releases the cloned route; what is queued is a clone of the inbound route and a COPY (ToView) of the whole datagram body after exactly the 4 fixed ICMP bytes - identifier, sequence number and all payload chunks, not just the first view, and not an alias of the receive buffer; this happens only for type == echo with at least 6 bytes in the first view. (I2) the replier answers each dequeued request exactly once with code 0 and releases the route. (I3) sendPing4: type = echo reply, the first bytes of the body (identifier) go to header bytes 4.., the rest is the payload, checksum = complement of the sum over the header (checksum field still zero in the freshly prepended buffer) continued over the payload, one WritePacket on the given route with protocol ICMPv4. (I4) ICMPv6: the 8-byte echo header is copied from the request, the type is then set to echo reply, the payload is the request's body after those 8 bytes, checksum over source/destination of the inbound route, length, next-header 58, payload and the header with the checksum field zeroed; sent on the inbound route. The inbound route is built with local = the packet's destination (the pinged address) and remote = its source, and Clone keeps both, so the reply goes to the requester from the pinged address. (I5) echo-reply type values are written nowhere else in the module, sendPing4 is called only by the replier and the queue is fed only by handleICMP: no reply without a request. That requests for foreign addresses never reach handleICMP is C09. (I6) the IPv4 reassembly key covers id, protocol and every byte of both addresses (shared with C08/F4): a fragmented request is reassembled from its own requester's fragments only. (I7) the masked address match behind 'is this address served here' (shared with C09/D5). (I8) the IPv4 inbound path (shared with C08/F4). (I5) also holds the exact guards of the ping socket's echo-request-only gate; (I9) ICMP type/code/checksum accessors at the RFC 792/4443 bits (shared with C15/B1). (I10) protocol 1 of a valid IPv4 datagram is handed to handleICMP with the payload view. (I11) the echo payload ends where the IP length says (shared with C16/V2); (I12) fragmented echo requests are stored through container/heap and reassembled in offset order (shared with C08/F2). (I13) the Internet checksum used by both reply builders drops no carry when folding to 16 bits (shared with C15/B4, C06/E0). (I14) a request reaches the ICMP code only through the network endpoint that owns its destination address: getRef returns a table hit or the one temporary endpoint it creates under promiscuous mode or an owning subnet (shared with C09/D3). NOT decided: scheduling (answered while < 10 pending), at-most-once under link-level duplication, fragmentation of large replies."
 
 	i1 := c.Rule("I1", "K12 capacity + K11 non-blocking + K5 provenance", "IPv4 echo queue", 9)
 	if fn := c.Fn(i1, "(*ipv4.protocol).NewEndpoint"); fn != nil {
@@ -60,6 +60,7 @@ func propC13(c *Ctx) {
 	vvCapLengthRule(c, c.Rule("I11", "K7 exact-guard site table (shared with C16/V2)", "the echo payload ends where the IP length says", 4))
 	reassemblerProcessRule(c, c.Rule("I12", "K9 path table + site table (shared with C08/F2)", "fragmented echo requests are reassembled in offset order whatever the arrival order", 6))
 	checksumCarryRule(c, "I13")
+	ownAddressDeliveryRule(c, c.Rule("I14", "K1/K5 site tables (shared with C09/D3)", "an echo request reaches the ICMP code only through the endpoint that owns its destination address; a temporary endpoint exists only under promiscuous mode or an owning subnet and is the one getRef just created", 6))
 	i3 := c.Rule("I3", "K5 provenance", "IPv4 echo reply construction", 8)
 	sendPing4Rule(c, i3)
 
